@@ -32,6 +32,9 @@ type Warning struct {
 // Outcome is what the reference model predicts for a program.
 type Outcome struct {
 	Unspecified string // non-empty: the program enters an unspecified zone; no value verdict
+	// TooLarge: the program computes a string repetition beyond the bound
+	// (excluded by the properties: its legitimate result would exhaust memory).
+	TooLarge bool
 	Output      string
 	Blocks      []*RBlock
 	Binding     *RBinding
@@ -44,6 +47,8 @@ type Outcome struct {
 }
 
 type unspec struct{ why string }
+
+const tooLarge = "repeat result too large"
 type rtPanic struct{ e *RTErr }
 
 type scope struct {
@@ -63,13 +68,28 @@ type Machine struct {
 	// MaxRepeat bounds the result size of string repetition that is still specified.
 	MaxRepeat int
 	dead      bool
+	// taint: an unspecified zone was entered in which the reference goes on
+	// with the implementation's observed behaviour, only so that it can still
+	// see what the rest of the program does (memory safety of the workload);
+	// a tainted outcome never yields a verdict.
+	taint string
+}
+
+func (m *Machine) setTaint(why string) {
+	if m.taint == "" {
+		m.taint = why
+	}
 }
 
 func NewMachine() *Machine {
 	return &Machine{scopes: []*scope{{vars: map[string]any{}}}, MaxRepeat: 1 << 16}
 }
 
+// Dead: no further statement is executed (runtime error or abort).
 func (m *Machine) Dead() bool { return m.dead }
+
+// Tainted: an unspecified zone was entered; no verdict will be given.
+func (m *Machine) Tainted() bool { return m.taint != "" }
 
 func (m *Machine) LiveVars() int {
 	n := 0
@@ -241,7 +261,7 @@ func (m *Machine) eval(e *Expr) any {
 	case ELit:
 		if e.Lit.Kind == LFloat {
 			if f, _ := e.Lit.Val.(float64); f == 0 && strings.ContainsAny(e.Lit.Text, "123456789") {
-				panic(unspec{"float literal underflow"})
+				m.setTaint("float literal underflow")
 			}
 		}
 		return e.Lit.Val
@@ -259,7 +279,7 @@ func (m *Machine) eval(e *Expr) any {
 			panic(rtPanic{&RTErr{Class: "unresolved:" + e.Name, Tok: e.Last}})
 		}
 		if _, isBlk := v.(*RBlock); isBlk {
-			panic(unspec{"field read yields a child block"})
+			m.setTaint("field read yields a child block")
 		}
 		return v
 	case EAssign:
@@ -299,7 +319,7 @@ func (m *Machine) eval(e *Expr) any {
 			}
 			if i, ok := x.(int); ok {
 				if i == math.MinInt64 {
-					panic(unspec{"negation of the smallest int"})
+					m.setTaint("negation of the smallest int")
 				}
 				return -i
 			}
@@ -329,6 +349,9 @@ func absU(a int) uint64 {
 func (m *Machine) binop(e *Expr, l, r any) any {
 	op := e.Op
 	bad := func() any {
+		if TypeName(l) == "block" || TypeName(r) == "block" {
+			panic(unspec{"operator applied to a block value"})
+		}
 		panic(rtPanic{&RTErr{Class: opName[op] + ":" + TypeName(l) + "," + TypeName(r), Tok: e.R.Last}})
 	}
 	switch op {
@@ -363,7 +386,7 @@ func (m *Machine) binop(e *Expr, l, r any) any {
 			} else {
 				a, b := toF(l), toF(r)
 				if (a != a || b != b) && (op == "<=" || op == ">=") {
-					panic(unspec{"<= / >= with a NaN operand"})
+					m.setTaint("<= / >= with a NaN operand")
 				}
 				lt, gt = a < b, a > b
 			}
@@ -391,13 +414,13 @@ func (m *Machine) binop(e *Expr, l, r any) any {
 			case "+":
 				s := a + b
 				if (b > 0 && s < a) || (b < 0 && s > a) {
-					panic(unspec{"int overflow"})
+					m.setTaint("int overflow")
 				}
 				return s
 			case "-":
 				s := a - b
 				if (b > 0 && s > a) || (b < 0 && s < a) {
-					panic(unspec{"int overflow"})
+					m.setTaint("int overflow")
 				}
 				return s
 			case "*":
@@ -408,11 +431,11 @@ func (m *Machine) binop(e *Expr, l, r any) any {
 					if a == 1 || b == 1 {
 						return a * b
 					}
-					panic(unspec{"int overflow"})
+					m.setTaint("int overflow")
 				}
 				hi, lo := bits.Mul64(absU(a), absU(b))
 				if hi != 0 || lo > math.MaxInt64 {
-					panic(unspec{"int overflow"})
+					m.setTaint("int overflow")
 				}
 				return a * b
 			default:
@@ -420,7 +443,8 @@ func (m *Machine) binop(e *Expr, l, r any) any {
 					panic(rtPanic{&RTErr{Class: "divzero", Tok: e.R.Last}})
 				}
 				if a == math.MinInt64 && b == -1 {
-					panic(unspec{"int overflow"})
+					m.setTaint("int overflow")
+					return a
 				}
 				return a / b
 			}
@@ -449,7 +473,8 @@ func (m *Machine) binop(e *Expr, l, r any) any {
 			f := r.(float64)
 			if f != f || math.IsInf(f, 0) || (f != 0 && (math.Abs(f) < 1e-4 || math.Abs(f) >= 1e6)) {
 				// %v and plain decimal notation differ there; the documentation fixes neither
-				panic(unspec{"string + float outside the range where notations agree"})
+				m.setTaint("string + float outside the range where notations agree")
+				return ls + strconv.FormatFloat(f, 'f', -1, 64)
 			}
 			return ls + strings.TrimSuffix(fmt.Sprintln(f), "\n")
 		case op == "+" && r == nil:
@@ -460,7 +485,7 @@ func (m *Machine) binop(e *Expr, l, r any) any {
 				panic(unspec{"negative repeat count"})
 			}
 			if c > m.MaxRepeat || (len(ls) > 0 && c > m.MaxRepeat/len(ls)) {
-				panic(unspec{"repeat result too large"})
+				panic(unspec{tooLarge})
 			}
 			return strings.Repeat(ls, c)
 		}
@@ -500,7 +525,8 @@ func exprDepth(e *Expr) int {
 type EvalResult struct {
 	Val    any
 	Err    *RTErr
-	Unspec string
+	Unspec string // unspecified zone entered (tainted or aborted)
+	Abort  bool   // the reference cannot go on (Unspec says why)
 }
 
 func (m *Machine) evalProtected(e *Expr) (res EvalResult) {
@@ -509,8 +535,10 @@ func (m *Machine) evalProtected(e *Expr) (res EvalResult) {
 			switch t := x.(type) {
 			case rtPanic:
 				res.Err = t.e
+				res.Unspec = m.taint
 			case unspec:
 				res.Unspec = t.why
+				res.Abort = true
 			default:
 				panic(x)
 			}
@@ -520,6 +548,9 @@ func (m *Machine) evalProtected(e *Expr) (res EvalResult) {
 		panic(unspec{"near the operand stack limit"})
 	}
 	res.Val = m.eval(e)
+	if m.taint != "" {
+		res.Unspec = m.taint
+	}
 	return res
 }
 
@@ -527,7 +558,9 @@ func (m *Machine) evalProtected(e *Expr) (res EvalResult) {
 func (m *Machine) TryExpr(e *Expr) EvalResult {
 	mark := len(m.undo)
 	saved := m.Out
+	savedTaint := m.taint
 	res := m.evalProtected(e)
+	m.taint = savedTaint
 	for i := len(m.undo) - 1; i >= mark; i-- {
 		m.undo[i]()
 	}
@@ -537,10 +570,18 @@ func (m *Machine) TryExpr(e *Expr) EvalResult {
 }
 
 func (m *Machine) fail(res EvalResult) bool {
-	if res.Unspec != "" {
-		m.Out.Unspecified = res.Unspec
+	if res.Abort {
+		if m.Out.Unspecified == "" {
+			m.Out.Unspecified = res.Unspec
+		}
+		if res.Unspec == tooLarge {
+			m.Out.TooLarge = true
+		}
 		m.dead = true
 		return true
+	}
+	if m.taint != "" && m.Out.Unspecified == "" {
+		m.Out.Unspecified = m.taint
 	}
 	if res.Err != nil {
 		m.Out.Err = res.Err
